@@ -92,7 +92,10 @@ impl SerializedRequest {
         // Leave space for the stream number
         data[4] = R::OPCODE as u8;
 
-        let req_size = (data.len() - HEADER_SIZE) as u32;
+        let body_size = data.len() - HEADER_SIZE;
+        let req_size: u32 = body_size
+            .try_into()
+            .map_err(|_| CqlRequestSerializationError::BodyTooLong(body_size))?;
         data[5..9].copy_from_slice(&req_size.to_be_bytes());
 
         Ok(Self { data })
@@ -282,7 +285,10 @@ pub fn compress_append(
 ) -> Result<(), CqlRequestSerializationError> {
     match compression {
         Compression::Lz4 => {
-            let uncomp_len = uncomp_body.len() as u32;
+            let uncomp_len: u32 = uncomp_body
+                .len()
+                .try_into()
+                .map_err(|_| CqlRequestSerializationError::BodyTooLong(uncomp_body.len()))?;
             let tmp = lz4_flex::compress(uncomp_body);
             out.reserve_exact(std::mem::size_of::<u32>() + tmp.len());
             out.put_u32(uncomp_len);
